@@ -4,6 +4,8 @@ from rules.shared import SPEC
 from rulelib import walk, nonpanic, path_sig, event_strs, where, depth_limit, canon, match_table
 from pathwalk import const_val
 
+import witness
+
 EXPLANATION = ("Preset tables IpBindConfig::into_ip / into_dual_stack_config == the documented presets; BindAddressConfig::bind_socket: socket domain "
                "follows the address family on every path, Deny -> set_only_v6(true), Allow -> set_only_v6(false), OsDefault -> no call, a pre-bound "
                "socket is returned as is, the socket is bound to the requested address; with_bind_default == InAddrAnyDual (server and client); "
@@ -150,3 +152,6 @@ def run(ctx):
     with depth_limit(8):
         ev = [e for p in nonpanic(walk(f)) for e in event_strs(p)]
     ctx.check("C20-R4", "client installs its quic config as default", any(re.match(r"^Endpoint::set_default_client_config\(&.*,client_config\.quic_config\)$", e) for e in ev), "Endpoint::client does not install client_config.quic_config", where(f))
+
+    ctx.rule("C20-R5", "builder typestate: compile-fail witnesses (build() before identity / trust policy; binding twice)")
+    witness.run(ctx, "C20-R5", {"C20"})
